@@ -127,8 +127,24 @@ def r271(repo, res, rid="R27.1"):
     res.require(vals == ["0", "DEFAULT_CONSTRAINT_ITERATIONS", "constr_iterations"], rid, "core.EstimationMethod.__init__ least-squares default is off unless sample ages differ", f"assignments: {vals}", repo.loc(init))
     for s, g in sts:
         if U(s.value) == "DEFAULT_CONSTRAINT_ITERATIONS":
-            ok = any(pol and U(e).replace(" ", "") == "unique_sample_ages.size>1" for e, pol in bool_guards(g))
-            res.require(ok, rid, "core.EstimationMethod.__init__ least-squares only when samples are not contemporaneous", "guard `unique_sample_ages.size > 1` missing", repo.loc(init, s))
+            di = Defs(init)
+
+            def distinct_sample_ages(e):
+                # `np.unique(<sample times>).size > 1` (temporaries inlined)
+                e = di.inline(e)
+                if not (isinstance(e, ast.Compare) and len(e.ops) == 1 and isinstance(e.ops[0], ast.Gt) and U(e.comparators[0]) == "1"):
+                    return False
+                x = e.left
+                if isinstance(x, ast.Call) and U(x.func) == "len" and len(x.args) == 1:
+                    x = x.args[0]
+                elif isinstance(x, ast.Attribute) and x.attr == "size":
+                    x = x.value
+                else:
+                    return False
+                return isinstance(x, ast.Call) and U(x.func) == "np.unique" and "nodes_time" in U(x.args[0]) and "samples()" in U(x.args[0])
+
+            ok = any(pol and distinct_sample_ages(e) for e, pol in bool_guards(g))
+            res.require(ok, rid, "core.EstimationMethod.__init__ least-squares only when samples are not contemporaneous", "guard `np.unique(<sample times>).size > 1` missing", repo.loc(init, s))
 
 
 def r034(repo, res, rid="R03.4"):
